@@ -24,8 +24,10 @@ EXTENDS BridgeObs, Json, IOUtils
 Rec == ndJsonDeserialize(IOEnv.TRACE)
 N == Len(Rec)
 
-VARIABLES l, keys, emitZero, classes
-tvars == <<ovars, l, keys, emitZero, classes>>
+VARIABLES l, keys, emitZero, classes,
+          uThr,     \* key -> what had been STARTED on it when the latest description of its name ended (-1: none)
+          uSince    \* name -> units the name can have had since that moment
+tvars == <<ovars, l, keys, emitZero, classes, uThr, uSince>>
 
 \* metrics.rs unit (as described) -> the unit metrique must report
 UnitName == [None |-> "None", Count |-> "Count", Percent |-> "Percent", Seconds |-> "Seconds",
@@ -36,9 +38,14 @@ UnitName == [None |-> "None", Count |-> "Count", Percent |-> "Percent", Seconds 
              KilobitsPerSecond |-> "Kilobits/Second", BitsPerSecond |-> "Bits/Second",
              CountPerSecond |-> "Count/Second"]
 
+RECURSIVE SumTo(_, _)
+SumTo(w, i) == IF i = 0 THEN 0 ELSE w[i] + SumTo(w, i - 1)
+Sum(w) == SumTo(w, Len(w))
+
 Ev(name) == l <= N /\ Rec[l].ev = name
 Adv == l' = l + 1
-UT == UNCHANGED <<keys, emitZero, classes>>
+UT0 == UNCHANGED <<keys, emitZero, classes>>
+UT == UT0 /\ UNCHANGED <<uThr, uSince>>
 
 Range(s) == {s[i] : i \in DOMAIN s}
 KeysOfKind(ks, kind) == {i \in DOMAIN ks : ks[i].kind = kind}
@@ -46,13 +53,15 @@ GReg(i) == "g" \o ToString(i)
 UReg(name) == "u:" \o name
 
 TInit ==
-    /\ l = 1 /\ keys = <<>> /\ emitZero = FALSE /\ classes = <<>>
+    /\ l = 1 /\ keys = <<>> /\ emitZero = FALSE /\ classes = <<>> /\ uThr = <<>> /\ uSince = <<>>
     /\ OInit({}, {}, {}, <<>>)
     /\ TLCSet(1, 1) /\ TLCSet(2, {})
 
 TReset ==
     /\ Ev("Reset") /\ Adv
     /\ keys' = Rec[l].keys /\ emitZero' = Rec[l].emit_zero /\ classes' = Rec[l].classes
+    /\ uThr' = [i \in DOMAIN Rec[l].keys |-> -1]
+    /\ uSince' = [n \in {Rec[l].keys[i].name : i \in DOMAIN Rec[l].keys} |-> {}]
     /\ LET ks == Rec[l].keys
            gregs == {GReg(i) : i \in KeysOfKind(ks, "g")}
            uregs == {UReg(ks[i].name) : i \in DOMAIN ks}
@@ -79,16 +88,27 @@ TRecStart == Ev("RecStart") /\ Adv /\ ORecStart(Rec[l].k, Rec[l].c, Rec[l].n) /\
 TRecEnd   == Ev("RecEnd") /\ Adv /\ ORecEnd(Rec[l].k, Rec[l].c, Rec[l].n) /\ UT
 TSetStart == Ev("SetStart") /\ Adv /\ OWriteStart(GReg(Rec[l].k), Rec[l].v) /\ UT
 TSetEnd   == Ev("SetEnd") /\ Adv /\ OWriteEnd(GReg(Rec[l].k), Rec[l].v) /\ UT
-TDescStart == Ev("DescStart") /\ Adv /\ OWriteStart(UReg(Rec[l].name), UnitName[Rec[l].unit]) /\ UT
-TDescEnd   == Ev("DescEnd") /\ Adv /\ OWriteEnd(UReg(Rec[l].name), UnitName[Rec[l].unit]) /\ UT
+\* Causality rule for units ("a metric described before it was updated is reported with that unit"):
+\* when a description D of a name ends, remember for every key of the name how much had been started on
+\* it (uThr) and which units the name can have from now on (uSince: the candidates after D, plus every
+\* description that starts later).  A readout whose cumulative report for the key exceeds uThr has seen
+\* an update that started after D ended, so whatever it reads afterwards - the unit table - is later
+\* than D: the unit it writes must be in uSince.
+StartedOn(i) == IF keys[i].kind = "c" THEN cS[i]
+                ELSE IF keys[i].kind = "h" THEN SumTo([c \in DOMAIN classes |-> hS[<<i, c>>]], Len(classes))
+                ELSE -1
+TDescStart ==
+    /\ Ev("DescStart") /\ Adv /\ OWriteStart(UReg(Rec[l].name), UnitName[Rec[l].unit]) /\ UT0
+    /\ uSince' = [uSince EXCEPT ![Rec[l].name] = @ \cup {UnitName[Rec[l].unit]}] /\ UNCHANGED uThr
+TDescEnd ==
+    /\ Ev("DescEnd") /\ Adv /\ OWriteEnd(UReg(Rec[l].name), UnitName[Rec[l].unit]) /\ UT0
+    /\ uSince' = [uSince EXCEPT ![Rec[l].name] = lCand'[UReg(Rec[l].name)]]
+    /\ uThr' = [i \in DOMAIN keys |-> IF keys[i].name = Rec[l].name THEN StartedOn(i) ELSE uThr[i]]
 TReadoutStart == Ev("ReadoutStart") /\ Adv /\ OReadoutStart /\ UT
 
 (***************************************************************************)
 (* a readout                                                                *)
 (***************************************************************************)
-RECURSIVE SumTo(_, _)
-SumTo(w, i) == IF i = 0 THEN 0 ELSE w[i] + SumTo(w, i - 1)
-Sum(w) == SumTo(w, Len(w))
 
 \* the registered key an item stands for: same kind, same name, its labels as dimensions (0 = none)
 Match(it) == {i \in DOMAIN keys : keys[i].kind = it.kind /\ keys[i].name = it.name
@@ -112,6 +132,11 @@ Dh(items, idx, cls) ==
 Dg(items, idx) == {<<GReg(idx[j]), items[j].v>> : j \in {jj \in DOMAIN items : idx[jj] # 0 /\ items[jj].kind = "g"}}
 Du(items) == {<<UReg(items[j].name), items[j].unit>> : j \in DOMAIN items}
 
+\* cumulative report for a key including this readout
+ReportedOn(i, dc, dh) == IF keys[i].kind = "c" THEN cC[i] + dc[i]
+                         ELSE IF keys[i].kind = "h" THEN SumTo([c \in DOMAIN classes |-> hC[<<i, c>>] + dh[<<i, c>>]], Len(classes))
+                         ELSE -1
+
 \* the rules, each with a name (Failures is what the runner prints when a readout is rejected)
 Rules(items, idx, cls, dc, dh, dg) ==
     [names      |-> \A j \in DOMAIN items : idx[j] # 0,
@@ -122,8 +147,11 @@ Rules(items, idx, cls, dc, dh, dg) ==
                         \A q \in DOMAIN items[j].obs : cls[j][q] >= 0,
      gauges     |-> RegsOK(dg),
      gaugeshown |-> RegsPresent(dg, {GReg(i) : i \in KeysOfKind(keys, "g")}),
+     unitsafter |-> \A j \in DOMAIN items :
+                        LET i == idx[j] IN
+                        (i # 0 /\ uThr[i] >= 0 /\ ReportedOn(i, dc, dh) > uThr[i]) => items[j].unit \in uSince[items[j].name],
      zerocounters |-> emitZero => \A i \in DOMAIN cC : cLo[i] > 0 => \E j \in DOMAIN items : idx[j] = i]
-RuleNames == {"names", "units", "counters", "histograms", "histvalues", "gauges", "gaugeshown", "zerocounters"}
+RuleNames == {"names", "units", "unitsafter", "counters", "histograms", "histvalues", "gauges", "gaugeshown", "zerocounters"}
 
 TReadoutEnd ==
     /\ Ev("ReadoutEnd") /\ Adv
@@ -159,7 +187,7 @@ Diag == IF DiagOn /\ l <= N /\ Rec[l].ev = "ReadoutEnd" /\ rOpen
              IN <<{n \in RuleNames : ~r[n]},
                   [lo |-> cLo, cum |-> cC, delta |-> dc, started |-> cS],
                   [lo |-> hLo, cum |-> hC, delta |-> dh, started |-> hS],
-                  [window |-> lW, reported |-> dg \cup Du(items)]>>
+                  [window |-> lW, reported |-> dg \cup Du(items), since |-> uSince]>>
         ELSE <<{}>>
 Track ==
     /\ IF l > TLCGet(1) THEN TLCSet(1, l) /\ TLCSet(2, Diag) ELSE TRUE
